@@ -61,6 +61,10 @@ type Peer struct {
 	Mutate func(step string, def []Item) []Item
 	// CloseAfter: end the script (caller closes the transport) right after sending this step ("" = never).
 	CloseAfter string
+	// Hold: handshake messages of these steps are not written when their step comes; they are put in front of the next
+	// handshake message that is written, in the same record (a legal coalescing of handshake messages).
+	Hold map[string]bool
+	held []byte
 
 	// results
 	Version      uint16
@@ -102,9 +106,17 @@ func (p *Peer) send(step string, def []Item) error {
 		}
 		if it.RecType == RecHandshake {
 			p.transcript = append(p.transcript, it.Data...)
+			if p.Hold[step] {
+				p.held = append(p.held, it.Data...)
+				continue
+			}
 		}
 		// fragment at 16384
 		data := it.Data
+		if it.RecType == RecHandshake && len(p.held) > 0 {
+			data = append(append([]byte{}, p.held...), it.Data...)
+			p.held = nil
+		}
 		for first := true; first || len(data) > 0; first = false {
 			n := len(data)
 			if n > 16384 {
